@@ -1,2 +1,6 @@
 import ADProps.C01
+import ADProps.C02
 import ADProps.C03
+import ADProps.C04
+import ADProps.C05
+import ADProps.C17
